@@ -13,12 +13,12 @@ Full statement aimed at (kept visible; what is proved of it is listed below):
 * `lex_total`, `parse_total`, `no_panic` — **full strength**, all texts: the lexer loop needs no
   iteration cap (this is what justified removing `assert!(i < 4095)`), every token consumes a
   character, no `assert!` of `RecordSet::insert` can fire.
-* `lex_render` — **full strength at token level**: for every layout of the printer that keeps
-  quoted strings out of parentheses and uses no `\DDD`, the text lexes to exactly the denoted
-  tokens (blank lines and comments produce nothing, a group equals its items on one line, a quoted
-  string yields its characters back).  The two excluded layouts are the known findings
-  (`finding_quote_inside_list`, `finding_semicolon_inside_quoted_list_item`,
-  `finding_decimal_escape`, each a kernel-checked replay).
+* `lex_render` — **full strength at token level**: for every layout of the printer that uses no
+  `\DDD`, the text lexes to exactly the denoted tokens (blank lines and comments produce nothing, a
+  group — with contiguous *and quoted* items — equals its items on one line, a quoted string yields
+  its characters back).  `\DDD` is the open known finding (`finding_decimal_escape`); quoted strings
+  inside parentheses were a finding and are repaired (commit 055beb6:
+  `regression_quote_inside_list`, `regression_semicolon_inside_quoted_list_item`).
 * `parse_render_tokens` — parsing a rendered file is running the line machine over the denoted
   tokens; `rr_line_*`, `ttl_take_*` — owner / TTL / class inheritance of the line machine;
   `parse_render_partial` — end to end for files of the stated shape.
@@ -94,11 +94,11 @@ theorem comment_line_tokens (b : Nat) (ws : List Nat) (c : Option (List Nat)) (c
     lineTokens ⟨.none, [], ⟨[], c, crs⟩⟩ = [.eol] := ⟨rfl, rfl⟩
 
 /-- a parenthesised group denotes the same strings as the same items on one line -/
-theorem group_vals (ws : List Nat) (els : List (PGap × (List Nat))) (close : PGap) :
-    (Piece.group ws els close).vals = (els.map fun (_, w) => Piece.item [32] (.word w)).flatMap Piece.vals := by
+theorem group_vals (ws : List Nat) (els : List (PGap × Item)) (close : PGap) :
+    (Piece.group ws els close).vals = (els.map fun (_, it) => Piece.item [32] it).flatMap Piece.vals := by
   induction els with
   | nil => rfl
-  | cons e els ih => obtain ⟨g, w⟩ := e; simp_all [Piece.vals, Item.val]
+  | cons e els ih => obtain ⟨g, it⟩ := e; simp_all [Piece.vals]
 
 /-- … and the parser treats a `List` token exactly like its items in sequence -/
 theorem list_token_as_items (cx : Ctx) (parts ws : List (List Nat)) :
@@ -123,16 +123,19 @@ theorem parse_render_tokens (f : File) (hf : File.ok f = true) (origin : Option 
   | unmodelled => rfl
   | panic s => rfl
 
-/-- non-vacuity: a three-line file with a comment line, a multi-line group and a quoted string -/
+/-- non-vacuity: a comment line, then an entry with a group over three lines that holds a
+contiguous item, a comment, and a quoted item with `;`, a blank and `)` inside, then a quoted
+string with escapes outside the group -/
 def sampleFile : File :=
   [ ⟨.none, [], ⟨[], some [32, 99], 0⟩⟩,                                            -- "; c\n"
     ⟨.word [97], [.item [32] (.word [54, 48]), .item [32] (.word [84, 88, 84]),
-        .group [32] [([.ws 10, .ws 32], [120]), ([.comment [99], .ws 9], [121])] [.ws 32],
+        .group [32] [([.ws 10, .ws 32], .word [120]),
+                     ([.comment [99], .ws 9], .quoted [.raw 121, .raw 59, .raw 32, .raw 41, .esc 34])] [.ws 32],
         .item [32, 9] (.quoted [.raw 113, .esc 34, .raw 32, .esc 92])], ⟨[32], some [], 1⟩⟩ ]
 
 example : File.ok sampleFile = true := by decide
 example : fileTokens sampleFile =
-    [.eol, .charData [97], .charData [54, 48], .charData [84, 88, 84], .list [[120], [121]],
+    [.eol, .charData [97], .charData [54, 48], .charData [84, 88, 84], .list [[120], [121, 59, 32, 41, 34]],
      .charData [113, 34, 32, 92], .eol] := by decide
 
 /-! ## the line machine: owner / TTL / class inheritance -/
@@ -153,7 +156,8 @@ end HickoryVerif.C20
 namespace HickoryVerif.C20
 open HickoryVerif HickoryVerif.ZoneLex HickoryVerif.ZoneParse HickoryVerif.Spec.MasterFile
 
-/-! ## the layouts the code mishandles — kernel-checked replays of the known findings
+/-! ## the layouts the code mishandles / mishandled — kernel-checked replays of the known findings and
+regressions of the repaired ones
 
 Each text is the corpus line of the finding (`corpus/C20/known-findings.case`); the model is
 evaluated on it with the fuel twin (`parseN_eq`: a result with fuel *is* the result of `parse`). -/
@@ -193,13 +197,13 @@ def textQuoteInsideList : List Nat :=
   [97, 32, 54, 48, 32, 73, 78, 32, 84, 88, 84, 32, 40, 32, 34, 104, 101, 108, 108, 111, 32, 119, 111,
    114, 108, 100, 34, 32, 41, 10]
 
-/-- **finding (ii), class `quote-inside-list`**: the group denotes one string `hello world`;
-the code loads the two strings `"hello` and `world"`. -/
-theorem finding_quote_inside_list :
-    (scan textQuoteInsideList).quoteInsideList = true ∧
+/-- **regression of finding (ii), fixed by 055beb6** (was class `quote-inside-list`: the code
+loaded the two strings `"hello` and `world"`): the group denotes one string `hello world`, and
+that is what loads. -/
+theorem regression_quote_inside_list :
     loadedTxt (parse textQuoteInsideList (some exampleCom)) =
-      some [[[34, 104, 101, 108, 108, 111], [119, 111, 114, 108, 100, 34]]] := by
-  exact ⟨by decide, observe_of_fuel (n := 80) (by decide +kernel)⟩
+      some [[[104, 101, 108, 108, 111, 32, 119, 111, 114, 108, 100]]] :=
+  observe_of_fuel (n := 80) (by decide +kernel)
 
 end HickoryVerif.C20
 
@@ -256,13 +260,13 @@ def nWWW : Name := { labels := [[119, 119, 119], [101, 120, 97, 109, 112, 108, 1
 /-- ```
     $TTL 300 ; default
     www  IN TXT ( a
-            b ) "c d"
+            "b; b" ) "c d"
       60 A 1.2.3.4
     ``` -/
 def sampleZone : List SLine :=
   [ .ttl [32] [51, 48, 48] ⟨[32], some [32, 100], 0⟩,
     .rr ⟨.name wWWW nWWW, [([32, 32], [73, 78])], ([32], [84, 88, 84]),
-         [.group [32] [([.ws 32], [97]), ([.ws 10, .ws 32], [98])] [.ws 32],
+         [.group [32] [([.ws 32], .word [97]), ([.ws 10, .ws 32], .quoted [.raw 98, .raw 59, .raw 32, .raw 98])] [.ws 32],
           .item [32] (.quoted [.raw 99, .raw 32, .raw 100])], ⟨[], none, 0⟩⟩,
     .rr ⟨.inherit 32, [([32], [54, 48])], ([32], [65]), [.item [32] (.word [49, 46, 50, 46, 51, 46, 52])],
          ⟨[], none, 1⟩⟩ ]
@@ -270,7 +274,7 @@ def sampleZone : List SLine :=
 example : File.ok (sampleZone.map SLine.line) = true := by decide
 
 example : (readFile { origin := some exampleCom } sampleZone).map (·.2) =
-    some [ { owner := nWWW, cls := 1, ttl := 300, typ := 16, origin := some exampleCom, rdata := [[97], [98], [99, 32, 100]] },
+    some [ { owner := nWWW, cls := 1, ttl := 300, typ := 16, origin := some exampleCom, rdata := [[97], [98, 59, 32, 98], [99, 32, 100]] },
            { owner := nWWW, cls := 1, ttl := 60, typ := 1, origin := some exampleCom, rdata := [[49, 46, 50, 46, 51, 46, 52]] } ] := by
   decide
 
@@ -284,13 +288,13 @@ def textSemicolonInsideQuotedListItem : List Nat :=
   [97, 32, 54, 48, 32, 73, 78, 32, 84, 88, 84, 32, 40, 32, 34, 118, 61, 68, 75, 73, 77, 49, 59, 32,
    107, 61, 114, 115, 97, 34, 32, 41, 10]
 
-/-- **finding (ii'), class `semicolon-inside-quoted-list-item`**: a well-formed entry (one TXT
-string) is rejected, because the `;` inside the quoted string starts a comment that swallows
-the closing parenthesis. -/
-theorem finding_semicolon_inside_quoted_list_item :
-    (scan textSemicolonInsideQuotedListItem).semicolonInsideQuotedListItem = true ∧
-    parse textSemicolonInsideQuotedListItem (some exampleCom) = .err :=
-  ⟨by decide, eq_err_of_isErr (observe_of_fuel (n := 80) (by decide +kernel))⟩
+/-- **regression of finding (ii'), fixed by 055beb6** (was class
+`semicolon-inside-quoted-list-item`: the entry was rejected because the `;` inside the quoted
+string started a comment): the one string `v=DKIM1; k=rsa` loads. -/
+theorem regression_semicolon_inside_quoted_list_item :
+    loadedTxt (parse textSemicolonInsideQuotedListItem (some exampleCom)) =
+      some [[[118, 61, 68, 75, 73, 77, 49, 59, 32, 107, 61, 114, 115, 97]]] :=
+  observe_of_fuel (n := 80) (by decide +kernel)
 
 /-- `a 60 IN TXT "\065bc"\n` -/
 def textDecimalEscape : List Nat :=
@@ -314,14 +318,16 @@ theorem finding_name_label_not_ldh :
     parse textNameNotLdh (some exampleCom) = .err :=
   ⟨by decide, eq_err_of_isErr (observe_of_fuel (n := 80) (by decide +kernel))⟩
 
-/-- `a\;b 60 IN A 1.2.3.4\n` : the escaped `;` is not honoured in a contiguous item — the rest of
-the line is taken as a comment and **no record is loaded, without any error**. -/
+/-- `a\;b 60 IN A 1.2.3.4\n` — **finding (v), class `escaped-semicolon-in-item`**: the escaped
+`;` is not honoured in a contiguous item — the item ends at the `;`, the rest of the line is taken
+as a comment and **no record is loaded, without any error**. -/
 def textEscapedSemicolonInName : List Nat :=
   [97, 92, 59, 98, 32, 54, 48, 32, 73, 78, 32, 65, 32, 49, 46, 50, 46, 51, 46, 52, 10]
 
 theorem finding_escaped_semicolon_drops_record :
+    nameHasSemicolon { labels := [[97, 59, 98], [101, 120, 97, 109, 112, 108, 101], [99, 111, 109]], fqdn := true } = true ∧
     loadedCount (parse textEscapedSemicolonInName (some exampleCom)) = some 0 :=
-  observe_of_fuel (n := 80) (by decide +kernel)
+  ⟨by decide, observe_of_fuel (n := 80) (by decide +kernel)⟩
 
 /-- the same strings in a layout inside `File.ok` load as denoted: `a 60 IN TXT ( hello world )` -/
 theorem good_group_loads :
@@ -392,15 +398,15 @@ example : parse (render (twoAs.map SLine.line)) (some exampleCom) =
     [ (.a, ⟨nWWW, 1, 60, .a [1, 2, 3, 4]⟩), (.a, ⟨nWWW, 1, 60, .a [5, 6, 7, 8]⟩) ]
     (by decide) (by decide) (by unfold FileNamesOK; decide) (by decide) (by decide) rfl
 
-/-- the sample zone of above, through the theorem: two record sets, `www TXT "a" "b" "c d"` with
+/-- the sample zone of above, through the theorem: two record sets, `www TXT "a" "b; b" "c d"` with
 the `$TTL` and `www A 1.2.3.4` with its own TTL and the inherited owner -/
 example : parse (render (sampleZone.map SLine.line)) (some exampleCom) =
     .ok (exampleCom,
-      [ (keyOf nWWW .txt, RSet.ofRec .txt ⟨nWWW, 1, 300, .txt [[97], [98], [99, 32, 100]]⟩),
+      [ (keyOf nWWW .txt, RSet.ofRec .txt ⟨nWWW, 1, 300, .txt [[97], [98, 59, 32, 98], [99, 32, 100]]⟩),
         (keyOf nWWW .a, RSet.ofRec .a ⟨nWWW, 1, 60, .a [1, 2, 3, 4]⟩) ]) := by
   exact loads_exactly_partial exampleCom exampleCom sampleZone
     { origin := some exampleCom, owner := some nWWW, dflt := some 300, lastTtl := some 60 }
-    [ { owner := nWWW, cls := 1, ttl := 300, typ := 16, origin := some exampleCom, rdata := [[97], [98], [99, 32, 100]] },
+    [ { owner := nWWW, cls := 1, ttl := 300, typ := 16, origin := some exampleCom, rdata := [[97], [98, 59, 32, 98], [99, 32, 100]] },
       { owner := nWWW, cls := 1, ttl := 60, typ := 1, origin := some exampleCom, rdata := [[49, 46, 50, 46, 51, 46, 52]] } ]
     _ (by decide) (by decide) (by unfold FileNamesOK; decide) (by decide) (by decide) rfl
 
